@@ -360,6 +360,28 @@ def step (st : St) (op impl : List String) : St × Verdict :=
     | ["deadlock"] =>
       (st, .oracle "C13: deadlock: group.Shutdown -> kickall calls Kick on a WHIP member while holding Group.mu; WhipClient.Kick -> Close -> DelClient locks the same Group.mu again")
     | _ => (st, .mismatch "done")
+  | ["loopstress", nc, np, n] =>
+    -- C13, lost wakeups: the real clientLoop against nc x np producers of n actions each, then a kick (loopstress.go)
+    match impl with
+    | ["ok"] => (st, .ok)
+    | [r] =>
+      if r.startsWith "env:" then (st, .ok)
+      else match r.splitOn ":" with
+        | "stuck" :: q :: s :: rest =>
+          let q := (q.drop 2).toString
+          let tail := s!" (real clientLoop over a websocket, {nc} clients x {np} producers x {n} actions, then a kick" ++
+            (if rest.contains "producers-running" then "; seen while the producers were still running" else "") ++
+            (if rest.contains "joining" then "; seen before the join was answered" else "") ++ ")"
+          if rest.contains "slow" then
+            (st, .oracle (s!"C13: lost action: the loop keeps emptying its queue ({q} queued now, trigger {s}) but the kick queued after " ++
+              "the producers returned was not delivered within the budget (taken from the queue by something other than the loop?)" ++ tail))
+          else if s == "s=0" then
+            (st, .oracle (s!"C13: lost wakeup: client loop asleep with {q} actions queued and an empty trigger channel" ++ tail))
+          else
+            (st, .oracle (s!"C13: client loop blocked with {q} actions queued and a full trigger channel: it has taken nothing " ++
+              "from its queue for seconds and never saw the kick (a loop waiting in its own blocking Put, or for a blocked producer)" ++ tail))
+        | _ => (st, .mismatch "ok")
+    | _ => (st, .mismatch "ok")
   | _ => (st, .badop "unknown op")
 
 def engine : EngineDef := { σ := St, init := {}, step := step }
